@@ -93,7 +93,8 @@ def run(ctx):
         raise vlib.Infra("the read pool of the sqlite database could not be observed (sqliteDatabase.readOnlyDb moved?)")
     trace = vlib.read_ndjson(ctx.path("trace.ndjson"))
     resets = [r for r in trace if r["t"] == "reset"]
-    if len(resets) != len(progs) - 4:
+    aborted = "aborted after" in p.stdout   # the driver stops early when programs keep leaking their transaction
+    if len(resets) != len(progs) - 4 and not aborted:
         raise vlib.Infra("driver executed %d of %d programs" % (len(resets), len(progs) - 4))
 
     # coverage of the actions the property depends on, measured on the log
@@ -112,45 +113,51 @@ def run(ctx):
     need = ["Read", "ReadToEnd", "ReadAfterClose", "Close", "t:end", "t:conc", "mode:storage", "mode:direct",
             "k0", "k1", "k2", "k3", "k4", "fnerr", "programs_with_repeated_close"]
     missing = [n for n in need if not cov.get(n)]
-    if missing:
+    if missing and not aborted:
         raise vlib.Infra("actions never exercised: %s" % missing)
     ctx.extra["coverage_counts"] = cov
 
     # binding self-test: corrupted copies of one recorded program ride along at the end of the file
-    start = next(i for i, r in enumerate(trace) if r["t"] == "reset" and r["mode"] == "storage" and r["k"] == 2
-                 and not r["fnerr"] and _interesting(by_id[r["prog"]])
-                 and not any(by_id[r["prog"]]["steps"].count(s_) > 1 for s_ in by_id[r["prog"]]["steps"] if s_["act"] == "Close"))
-    end = next(i for i in range(start, len(trace)) if trace[i]["t"] == "end")
-    block = trace[start:end + 1]
+    def build_selftests():
+        start = next(i for i, r in enumerate(trace) if r["t"] == "reset" and r["mode"] == "storage" and r["k"] == 2
+                     and not r["fnerr"] and _interesting(by_id[r["prog"]])
+                     and not any(by_id[r["prog"]]["steps"].count(s_) > 1 for s_ in by_id[r["prog"]]["steps"] if s_["act"] == "Close"))
+        end = next(i for i in range(start, len(trace)) if trace[i]["t"] == "end")
+        block = trace[start:end + 1]
 
-    def variant(pid, fn):
-        b = [dict(r) for r in block]
-        for r in b:
-            r["prog"] = pid
-        return fn(b)
+        def variant(pid, fn):
+            b = [dict(r) for r in block]
+            for r in b:
+                r["prog"] = pid
+            return fn(b)
 
-    def bump_rb(b):
-        i = next(j for j, r in enumerate(b) if r["t"] == "step" and r["act"] == "Close")
-        for r in b[i:]:
-            r["rb"] += 1
-        return b
+        def bump_rb(b):
+            i = next(j for j, r in enumerate(b) if r["t"] == "step" and r["act"] == "Close")
+            for r in b[i:]:
+                r["rb"] += 1
+            return b
 
-    def short_read(b):
-        i = next(j for j, r in enumerate(b) if r["t"] == "step" and r["act"] in ("Read", "ReadToEnd") and r["n"] > 0)
-        b[i]["n"] -= 1
-        return b
+        def short_read(b):
+            i = next(j for j, r in enumerate(b) if r["t"] == "step" and r["act"] in ("Read", "ReadToEnd") and r["n"] > 0)
+            b[i]["n"] -= 1
+            return b
 
-    def drop_close(b):
-        i = max(j for j, r in enumerate(b) if r["t"] == "step" and r["act"] == "Close")
-        return b[:i] + b[i + 1:]
+        def drop_close(b):
+            i = max(j for j, r in enumerate(b) if r["t"] == "step" and r["act"] == "Close")
+            return b[:i] + b[i + 1:]
 
-    def leak(b):
-        b[-1]["inuse"] = 1
-        return b
+        def leak(b):
+            b[-1]["inuse"] = 1
+            return b
 
-    selftests = [variant(-1, bump_rb), variant(-2, short_read), variant(-3, drop_close), variant(-4, leak)]
+        return block, [variant(-1, bump_rb), variant(-2, short_read), variant(-3, drop_close), variant(-4, leak)]
+
+    try:
+        block, selftests = build_selftests()
+    except (StopIteration, KeyError, IndexError, ValueError):
+        block, selftests = [], None     # the log is too broken to derive the self-test; only acceptable next to violations
     with open(ctx.path("trace.ndjson"), "a") as f:
-        for b in selftests:
+        for b in selftests or []:
             for r in b:
                 f.write(json.dumps(r, separators=(",", ":")) + "\n")
 
@@ -158,19 +165,20 @@ def run(ctx):
     n, flagged = ctx.validate_cases("TxReadersTrace", "TxReaders.Trace.cfg", ctx.path("trace.ndjson"), timeout=1800,
                                     subst={"Deviations": ctx.deviations("D-C36")})
     bad = sorted(set(r["prog"] for r in flagged if r["prog"] < 0 and r["verdict"] == "mismatch"))
-    if bad != [-4, -3, -2, -1]:
-        raise vlib.Infra("binding self-test: corrupted programs %s of 4 were rejected" % bad)
-    ctx.extra["binding_selftest"] = "4 corrupted programs rejected (rollback count, short read, dropped Close, leaked connection)"
+    selftest_ok = selftests is not None and bad == [-4, -3, -2, -1]
+    if selftest_ok:
+        ctx.extra["binding_selftest"] = "4 corrupted programs rejected (rollback count, short read, dropped Close, leaked connection)"
     ctx.events = len(trace)
-    ctx.traces = len(resets) + cov["t:conc"]
+    ctx.traces = len(resets) + cov.get("t:conc", 0)
     ctx.evaluations = len(trace)
     ctx.extra["programs"] = {"exhaustive_k_le_2": len(exhaustive), "random_k_3_4": len(sampled),
-                             "executed": len(resets), "concurrent_rounds": cov["t:conc"]}
+                             "executed": len(resets), "concurrent_rounds": cov.get("t:conc", 0)}
     ctx.extra["distinct_nontrivial"] = sum(1 for q in progs if _interesting(q))
     ctx.extra["exhaustive"] = "all call sequences to depth 2k+3 for k<=2; seeded random walks for k=3,4"
     for q in rnd.sample(progs, 3):
         ctx.sample({"program": q})
-    ctx.sample(block[1])
+    if len(block) > 1:
+        ctx.sample(block[1])
 
     lines_of = {}
     for r in trace:
@@ -194,6 +202,10 @@ def run(ctx):
                           "program %s line %d (%s): the code did something the model of the code does not explain; model %s; log %s" %
                           (r["prog"], r["l"], json.dumps(r["detail"]), json.dumps(r["model"]),
                            json.dumps(trace[r["l"] - 1]) if r["l"] <= len(trace) else "?"))
+    if not selftest_ok and ctx.violations == 0:
+        raise vlib.Infra("binding self-test: corrupted programs %s of 4 were rejected" % bad)
+    if aborted and ctx.violations == 0:
+        raise vlib.Infra("driver aborted early but no violation was found")
     failing_reads = sum(1 for r in trace if r["t"] == "step" and r["err"] == "txdone")
     ctx.extra["programs_not_explained_by_model"] = nviol
     ctx.extra["programs_violating_property"] = nfind
